@@ -156,7 +156,13 @@ def run_case(c, stats):
                     call(g3.contains, list(w))
                 for w in c["long_words"][:2]:
                     ww = [gcfg.tval(c, j) for j in w]
-                    call(g3.contains, [gcfg.tval(c, 0)] + ww + [gcfg.tval(c, 1), gcfg.tval(c, 2)])
+                    t0_, t1_, t2_ = (gcfg.tval(c, j) for j in range(3))
+                    call(g3.contains, [t0_] + ww + [t1_, t2_])
+                    for i in range(1, len(ww)):
+                        # the beginning of one production glued to the end of another
+                        call(g3.contains, [t0_] + ww[i:])
+                        call(g3.contains, [t0_] + ww[i:] + [t1_, t2_])
+                        call(g3.contains, ww[:i] + [t1_, t2_])
     call(lambda: [] in g)
     call(lambda: terms[:1] in g)
     call(g.generate_epsilon)
